@@ -22,7 +22,7 @@ func init() {
 		}
 		fn := f.Func("hydra", "SummonSwamp")
 		cb := f.Func("hydra", "closeEventCallbackFunction")
-		if fn == nil || cb == nil {
+		if fn == nil {
 			for _, n := range names {
 				fs.Tri(n, Unknown, c18HydraPath)
 			}
@@ -177,9 +177,13 @@ func init() {
 		fs.Tri("createInsideOnly", TriOf(inside), where)
 
 		// close callback: swamps.Delete(name) (by name) or a per-instance closure with CompareAndDelete(name, inst)
-		cmp, whereCb := Unknown, c14Where(f, cb)
-		cbb := c17Plain(f, cb.Body.List)
-		byName := len(cbb) == 1 && f.Str(cbb[0]) == "h.swamps.Delete(swampName.Get())"
+		cmp, whereCb := Unknown, where
+		byName := false
+		if cb != nil {
+			whereCb = c14Where(f, cb)
+			cbb := c17Plain(f, cb.Body.List)
+			byName = len(cbb) == 1 && f.Str(cbb[0]) == "h.swamps.Delete(swampName.Get())"
+		}
 		cn := f.Func("hydra", "createNewSwamp")
 		usesNamed, usesCompare := false, false
 		if cn != nil {
